@@ -9,5 +9,6 @@ INVARIANT OnceInOrder
 INVARIANT Released
 INVARIANT ReleasedCount
 INVARIANT FaultsSurface
+INVARIANT ShouldStopReads
 INVARIANT EndState
 CHECK_DEADLOCK FALSE
